@@ -69,8 +69,10 @@ class DataIndexView(BaseDataIndex):
                 self.value = args[0] if args else None
 
             def build(self, stack):
+                self.has_children = False
                 if not self.key or not shallow:
                     for child in self.children:
+                        self.has_children = True
                         stack.append(child)
                 return self.key, self.value
 
@@ -90,7 +92,10 @@ class DataIndexView(BaseDataIndex):
                 key, value = node.build(stack)
                 if key and value:
                     yield key, value
-                    if ensure_loaded:
+                    # NOTE: the dir might have been loaded by the consumer (and
+                    # not by us) after traverse() has looked for its keys, so
+                    # go by what traverse() has seen and not by entry.loaded.
+                    if ensure_loaded and not node.has_children:
                         yield from self._load_dir_keys(key, value, shallow=shallow)
 
     def _load_dir_keys(
@@ -106,7 +111,6 @@ class DataIndexView(BaseDataIndex):
             entry is not None
             and entry.hash_info
             and entry.hash_info.isdir
-            and not entry.loaded
         ):
             self._index._load(prefix, entry)
             if not shallow:
